@@ -383,7 +383,15 @@ def _freq_case(rng, tier):
                 config={"kinetics": kin}, initIce="indirect", threshold=0.9)
 
 
+def _late(rng, tier):
+    c = c01._late_cn(rng, tier)
+    c["dice"] = "recorded"
+    return c
+
+
 def cases(rng, tier):
+    for _ in range(4 if tier == "quick" else 40):
+        yield _late(rng, tier)
     ns, nr, nf = (40, 16, 2) if tier == "quick" else (900, 300, 6)
     for _ in range(ns):
         yield _case(rng, tier)
